@@ -442,13 +442,13 @@ func verifyFeatures(in In) []string {
 	return f
 }
 
-func fieldText(name, algo string, contents [2][]byte, recs [2]string, useRec bool) string {
+func fieldText(name, algo string, contents [2][]byte, recs [2]string) string {
 	var b strings.Builder
 	b.WriteString(name + ":\n")
 	files := [2]string{"pkg_1.0-1.dsc", "pkg_1.0.orig.tar.gz"}
 	for i := 0; i < 2; i++ {
 		h := hex.EncodeToString(refDigest(algo, contents[i]))
-		if useRec && recs[i] != "" {
+		if recs[i] != "" {
 			h = recs[i]
 		}
 		fmt.Fprintf(&b, " %s %d %s\n", h, len(contents[i]), files[i])
@@ -456,10 +456,12 @@ func fieldText(name, algo string, contents [2][]byte, recs [2]string, useRec boo
 	return b.String()
 }
 
-// paragraph renders the control paragraph for a parsed carrier.
-func paragraph(in In, algo string, contents [2][]byte, rec string) string {
-	var recs [2]string
-	recs[in.Entry] = rec
+// paragraph renders the control paragraph for a parsed carrier. rec256 / rec512 replace the recorded hash of the
+// listed entry in.Entry in the respective field ("" = that field records the true digest).
+func paragraph(in In, contents [2][]byte, rec256, rec512 string) string {
+	var r256, r512 [2]string
+	r256[in.Entry] = rec256
+	r512[in.Entry] = rec512
 	var b strings.Builder
 	switch in.Carrier {
 	case "dsc":
@@ -472,10 +474,10 @@ func paragraph(in In, algo string, contents [2][]byte, rec string) string {
 		b.WriteString("Package: pkg\n")
 	}
 	if in.Fields == "256" || in.Fields == "both" {
-		b.WriteString(fieldText("Checksums-Sha256", "sha256", contents, recs, algo == "sha256"))
+		b.WriteString(fieldText("Checksums-Sha256", "sha256", contents, r256))
 	}
 	if in.Fields == "512" || in.Fields == "both" {
-		b.WriteString(fieldText("Checksums-Sha512", "sha512", contents, recs, algo == "sha512"))
+		b.WriteString(fieldText("Checksums-Sha512", "sha512", contents, r512))
 	}
 	return b.String()
 }
@@ -613,17 +615,31 @@ func checkVerify(scen string, in In) (*mc.Violation, string) {
 			fh = control.FileHashFromHasher("pkg_1.0-1.dsc", *h)
 			want = bytes.Equal(refDigest(algo, contents[0]), refDigest(algo, target))
 		} else {
-			rec := recorded(in.Kind, algo, target, other)
-			if rec == "" {
+			// the recorded hash of the listed entry, per field. For the selector with both fields present the
+			// statement does not say which field is preferred: both fields are damaged alike and the entry's
+			// own algorithm is that of the field its text came from.
+			recs := map[string]string{algo: recorded(in.Kind, algo, target, other)}
+			if in.Carrier == "best" && in.Fields == "both" {
+				recs[otherAlgo(algo)] = recorded(in.Kind, otherAlgo(algo), target, other)
+			}
+			if recs[algo] == "" {
 				return
 			}
-			want = shouldAccept(rec, algo, target)
-			text := paragraph(in, algo, contents, rec)
+			text := paragraph(in, contents, recs["sha256"], recs["sha512"])
 			es, err := entriesOf(in, text)
 			if err != nil || len(es) != 2 {
 				viol = mc.V(scen, "field-decodes-to-its-entries", in, "2 entries, nil error", fmt.Sprintf("%d entries, error %v", len(es), err), feat...)
 				return
 			}
+			if es[in.Entry].Hash != recs[algo] {
+				if o := otherAlgo(algo); recs[o] != "" && es[in.Entry].Hash == recs[o] {
+					algo = o // the selector took the entry from the other field
+				} else {
+					viol = mc.V(scen, "field-decodes-to-its-entries", in, "entry "+fmt.Sprint(in.Entry)+" with hash text "+recs[algo], fmt.Sprintf("%+v", es[in.Entry]), feat...)
+					return
+				}
+			}
+			want = shouldAccept(es[in.Entry].Hash, algo, target)
 			fh = es[in.Entry]
 		}
 		verdict, detail, second = runVerifier(fh, target, in.Chunks)
@@ -1013,7 +1029,7 @@ func verifyScenarios(r *mc.Run) {
 		cfNames = append(cfNames, c.carrier+"/"+c.fields)
 	}
 	r.Scenario("verifier-parsed-entries", map[string]interface{}{"carrier/fields": cfNames, "recorded": recordedKinds, "listed_entry": "0 and 1 of a two-file field",
-		"streams": fmt.Sprintf("all |s|<=%d over 00 61 ff (other stream: s+00, s minus last byte) and pattern streams of lengths %v (other: last bit flipped)", Lv, longLens),
+		"streams":   fmt.Sprintf("all |s|<=%d over 00 61 ff (other stream: s+00, s minus last byte) and pattern streams of lengths %v (other: last bit flipped)", Lv, longLens),
 		"chunkings": "every composition + one empty write anywhere (short); 1, 3, 64, whole, empty+whole (long)", "pairs": len(pairs)}, len(pairs),
 		func(i int, st *mc.Stats) bool {
 			p := pairs[i]
